@@ -548,7 +548,7 @@ func TestVerif(t *testing.T) {
 	r.Set("exhaustive_plans_total", nExhaustive)
 
 	// Group B.
-	nB := r.N(3000, 150000)
+	nB := r.N(3000, 300000)
 	for k := 0; k < nB; k++ {
 		r.Run(groupSampled+k, fmt.Sprintf("sampled-%d", k), func(c *rep.Case) {
 			sc, pl := sampledCase(r.Seed(), k)
@@ -568,7 +568,7 @@ func TestVerif(t *testing.T) {
 	}
 
 	// Group C.
-	nC := r.N(800, 20000)
+	nC := r.N(800, 30000)
 	for k := 0; k < nC; k++ {
 		r.Run(groupReal+k, fmt.Sprintf("real-%d", k), func(c *rep.Case) {
 			runRealCase(t, r, c, k)
